@@ -115,7 +115,7 @@ End Csr.
          body_isdofancestor[bodyid, dofid] = 1
          dofid = mjm.dof_parentid[dofid]
    The two `while` loops carry explicit fuel (nbody, nv + 1): on a well-formed model they
-   stop before the fuel runs out (Proof/Jac.v climb_fuel / chain_fuel). *)
+   stop before the fuel runs out (Proof/Jac.v U_fuel / C_fuel / start_is_U_fuel). *)
 Section IsDofAncestor.
   Variables (parentid dofnum dofadr dof_parentid : list Z).
 
